@@ -2,10 +2,12 @@ package props
 
 import (
 	"context"
+	crand "crypto/rand"
 	"encoding/json"
 	"fmt"
 	"sort"
 	"strings"
+	"sync"
 	"time"
 
 	"tunnox-core/internal/cloud/models"
@@ -52,6 +54,9 @@ type c06code struct {
 	expHi   time.Duration // latest instant the code can expire (create return + ttl)
 	created bool
 	node    int // node through which the code was generated
+	genInv  int64
+	genRet  int64
+	genErr  error
 }
 
 type c06call struct {
@@ -101,6 +106,8 @@ type c06node struct {
 	stallAt  int
 	stallFor time.Duration
 	opCnt    int
+	pendOp   string // operation announced by Filter, about to be applied
+	pendKey  string
 }
 
 type c06run struct {
@@ -121,6 +128,10 @@ type c06run struct {
 	fNode int
 	fK    int
 	fDur  time.Duration
+	// appeared: instant at which the primary record of a mapping was first written
+	// to the shared store (observed at the storage boundary, after any stall)
+	appeared map[string]time.Duration
+	genMode  string // sequential | concurrent | burst
 }
 
 func (r *c06run) logf(format string, a ...any) {
@@ -133,14 +144,23 @@ func (r *c06run) newNode(name string) *c06node {
 	st := simstore.New(w, name, r.stor)
 	st.Filter = func(op, key string) bool {
 		r.logf("%s %s %s", name, op, strings.TrimPrefix(key, "tunnox:"))
+		n.pendOp, n.pendKey = op, key
 		return true
 	}
 	st.Sync = func() {
+		op, key := n.pendOp, n.pendKey // no yield between Filter and Sync
 		n.opCnt++
 		if n.stallAt > 0 && n.opCnt == n.stallAt {
 			w.Fault("store.stall")
 			r.logf("%s STALL %v", name, n.stallFor)
 			w.Sleep(n.stallFor)
+			r.logf("%s resumes %s %s", name, op, strings.TrimPrefix(key, "tunnox:"))
+		}
+		if op == "Set" && strings.HasPrefix(key, constants.KeyPrefixPortMapping+":") {
+			id := strings.TrimPrefix(key, constants.KeyPrefixPortMapping+":")
+			if _, seen := r.appeared[id]; !seen {
+				r.appeared[id] = w.Now()
+			}
 		}
 		if r.rd != nil {
 			r.rd.Sync()
@@ -389,14 +409,37 @@ func c06faultSite(err error) string {
 	return "other"
 }
 
+// c06rand replaces crypto/rand.Reader for the duration of a run: the repo's
+// code and id generators draw from a stream seeded by the choice stream, so a
+// run (including which characters concurrent generators draw) replays exactly.
+// The stream is uniform, so independently generated codes collide as rarely as
+// with the real source.
+type c06rand struct {
+	mu sync.Mutex
+	s  uint64
+}
+
+func (r *c06rand) Read(p []byte) (int, error) {
+	r.mu.Lock()
+	defer r.mu.Unlock()
+	for i := range p {
+		r.s += 0x9e3779b97f4a7c15
+		z := r.s
+		z = (z ^ (z >> 30)) * 0xbf58476d1ce4e5b9
+		z = (z ^ (z >> 27)) * 0x94d049bb133111eb
+		p[i] = byte((z ^ (z >> 31)) >> 24)
+	}
+	return len(p), nil
+}
+
 func init() {
 	Register(&Scenario{
 		ID:    "C06",
 		Level: "exploration",
-		Rule: "each run draws a backend (real memory | real redis on miniredis), 1-3 nodes (own service stack each, one shared store), optional stats counter, a per-client mapping quota in {50,1,0}, 1-2 codes " +
+		Rule: "each run draws a backend (real memory | real redis on miniredis), 1-3 nodes (own service stack each, one shared store), optional stats counter, a per-client mapping quota in {50,1,0}, 1-2 codes generated one after the other, or 2 codes by concurrent requests, or a burst of 3-4 concurrent generate requests through one node (the repo's crypto/rand source is a uniform stream seeded from the choice stream, so generated codes replay) " +
 			"(activation TTL 90s or 10min, own unique target address) created fault-free through a drawn node, then 2-4 activation calls (client from a pool of three - so the same client often calls twice - or the code's own target client, drawn node, unique listen address, 1/8 malformed, start delay in {0,0.4s,1.7s,7s,31s,95s,11min}: simultaneous, a few hundred ms / seconds apart, and beyond the TTLs), " +
 			"0-1 revoke call and 0-2 read-only lookups of a code through a drawn node, all as concurrent tasks interleaved at statement/storage-operation granularity; one fault mode per run: none | the k-th storage write of one node fails (k in 1..16) | that node crashes (is fenced) at its k-th write and a fresh node retries every code afterwards | the k-th storage operation of one node stalls 47s/101s/11min (lets expiry or later calls land inside an activation). " +
-			"The fault position is sampled, not piloted. Non-trivial: two state-changing calls (activate/revoke) on one code overlapped (invoke/return stamps interleave), or a fault fired inside a call, or an activation was attempted on a code that was already used, revoked or expired. Distinct = distinct schedule hashes among those.",
+			"The fault position is sampled, not piloted. Oracle clauses beyond call results: codes handed out are pairwise distinct and each stays bound to its requester's target; no mapping of a code is first written to the store after a revoke was acknowledged or after the code's deadline (write instants observed at the storage boundary) and remains. Non-trivial: two generate requests overlapped on one node, or two state-changing calls (activate/revoke) on one code overlapped (invoke/return stamps interleave), or a fault fired inside a call, or an activation was attempted on a code that was already used, revoked or expired. Distinct = distinct schedule hashes among those.",
 		Real:        []string{"internal/cloud/services/conncode Service (Create/Activate/Revoke)", "internal/cloud/repos ConnectionCodeRepository, PortMappingRepo, GenericRepository", "internal/cloud/services portMappingService + conncode facade adapter", "internal/core/idgen IDManager (SetNX id claims)", "internal/cloud/stats StatsCounter (1/3 of runs)", "internal/core/storage/memory or internal/core/storage/redis over go-redis + miniredis"},
 		Stub:        []string{"command handlers / sessions: harness tasks call the service methods with the authenticated client id, as the handlers do", "redis server: miniredis in the bubble over net.Pipe, TTL clock driven from the simulated clock", "storage latency/failure/crash: simstore handle per node"},
 		Assumptions: []string{"a mapping is attributed to a code by the code's target address (unique per code in the workload) and to a call by its listen address (unique per call)", "instants exactly on an expiry boundary are never generated (delays and stalls cannot sum to a TTL)", "a revoke and an activation that overlap may both succeed only if the mapping was already in the store when the revoke was acknowledged (the text does not define revoke-after-use)", "lost writes (acknowledged but not applied) and the tiered/hybrid backend are not generated", "after a crash only the count of mappings per code after a retry on a fresh node is judged"},
@@ -412,8 +455,11 @@ func c06Run(w *simrt.World, tier string) {
 	c := w.C
 	ctx, cancel := context.WithCancel(w.Ctx)
 	defer cancel()
-	r := &c06run{w: w, ctx: ctx}
+	r := &c06run{w: w, ctx: ctx, appeared: map[string]time.Duration{}}
 	w.SetCrashSentinel(simstore.Crash)
+	oldRand := crand.Reader
+	crand.Reader = &c06rand{s: uint64(c.Intn(1<<30, "rand.seed"))*0x2545f4914f6cdd1d + 1}
+	defer func() { crand.Reader = oldRand }()
 
 	// ---- swarm configuration (all draws before any task is spawned)
 	useRedis := c.Intn(3, "backend") == 2
@@ -424,10 +470,20 @@ func c06Run(w *simrt.World, tier string) {
 	if c.Intn(4, "ncodes") == 3 {
 		nCodes = 2
 	}
+	// how the codes are generated: one after the other, or by concurrent requests
+	// (several target clients asking at the same moment), or a burst of 3-4
+	// concurrent requests through one node
+	r.genMode = []string{"sequential", "sequential", "concurrent", "burst"}[c.Intn(4, "gen.mode")]
+	if r.genMode == "concurrent" && nCodes == 1 {
+		nCodes = 2
+	}
+	if r.genMode == "burst" {
+		nCodes = 3 + c.Intn(2, "gen.burst")
+	}
 	for i := 0; i < nCodes; i++ {
 		cd := &c06code{idx: i, target: 1001, host: fmt.Sprintf("10.9.%d.1", i+1), port: 3306 + i, proto: "tcp"}
 		if c.Intn(3, "code.target") == 2 {
-			cd.target = 1002
+			cd.target = 1002 + int64(i%2)
 		}
 		if c.Intn(4, "code.proto") == 3 {
 			cd.proto = "udp"
@@ -475,8 +531,12 @@ func c06Run(w *simrt.World, tier string) {
 		cl.delay = []time.Duration{0, 0, 300 * time.Millisecond, 1500 * time.Millisecond, 6 * time.Second, 30 * time.Second}[c.Intn(6, "look.delay")]
 		r.calls = append(r.calls, cl)
 	}
+	burstNode := c.Intn(nNodes, "gen.burst.node")
 	for _, cd := range r.codes {
 		cd.node = c.Intn(nNodes, "code.node")
+		if r.genMode == "burst" {
+			cd.node = burstNode
+		}
 	}
 	r.fault = []string{"none", "none", "none", "error", "error", "crash", "crash", "stall"}[c.Intn(8, "fault")]
 	r.fNode = c.Intn(nNodes, "fault.node")
@@ -503,23 +563,92 @@ func c06Run(w *simrt.World, tier string) {
 	}
 
 	// ---- codes are generated fault-free through a drawn node, as the generate handler does
-	for _, cd := range r.codes {
+	generate := func(cd *c06code) {
 		t0 := w.Now()
+		cd.genInv = w.Stamp()
+		r.logf("G%d invoke generate(code%d) target=%d on %s", cd.idx, cd.idx, cd.target, r.nodes[cd.node].name)
 		cc, err := r.nodes[cd.node].svc.CreateConnectionCode(&services.CreateConnectionCodeRequest{
 			TargetClientID: cd.target, TargetAddress: cd.addr, ActivationTTL: cd.ttl, MappingDuration: cd.mapDur,
 			Description: fmt.Sprintf("code%d", cd.idx), CreatedBy: fmt.Sprintf("client-%d", cd.target),
 		})
+		cd.genRet = w.Stamp()
 		if err != nil || cc == nil {
-			w.Violationf("C06:create-failed", "CreateConnectionCode on a clean store failed: %v", err)
+			cd.genErr = fmt.Errorf("%v", err)
+			r.logf("G%d return error %v", cd.idx, err)
 			return
 		}
 		cd.code, cd.id, cd.created = cc.Code, cc.ID, true
 		cd.expLo, cd.expHi = t0+cd.ttl, w.Now()+cd.ttl
-		r.logf("created code%d on %s target=%d %s ttl=%v", cd.idx, r.nodes[cd.node].name, cd.target, cd.addr, cd.ttl)
+		r.logf("G%d return code%d=%s target=%d %s ttl=%v", cd.idx, cd.idx, cd.code, cd.target, cd.addr, cd.ttl)
 	}
-	if len(r.codes) == 2 && r.codes[0].code == r.codes[1].code {
-		w.Violationf("C06:duplicate-code", "two generated codes are equal")
-		return
+	if r.genMode == "sequential" {
+		for _, cd := range r.codes {
+			generate(cd)
+		}
+	} else {
+		var gts []*simrt.Task
+		for _, cd := range r.codes {
+			cd := cd
+			gts = append(gts, w.Spawn(fmt.Sprintf("gen-%d", cd.idx), func() {
+				w.Yield("c06.generate")
+				generate(cd)
+			}))
+		}
+		for _, t := range gts {
+			t.Wait()
+		}
+	}
+	w.Probe("generate." + r.genMode)
+	for _, cd := range r.codes {
+		if !cd.created {
+			w.Violation("C06:create-failed:"+r.genMode, r.detail(fmt.Sprintf("CreateConnectionCode for code%d on a fault-free store failed: %v", cd.idx, cd.genErr)))
+			return
+		}
+	}
+	// every request got its own code, and the code is bound to what its requester fixed
+	genBroken := false
+	for i, a := range r.codes {
+		for _, b := range r.codes[i+1:] {
+			if a.code != b.code {
+				continue
+			}
+			genBroken = true
+			how, where := "sequential-requests", "other-node"
+			if a.genInv < b.genRet && b.genInv < a.genRet {
+				how = "concurrent-requests"
+				w.Nontrivial()
+			}
+			if a.node == b.node {
+				where = "same-node"
+			}
+			w.Violation("C06:same-code-given-twice:"+how+":"+where, r.detail(fmt.Sprintf("code%d (target %d, %s) and code%d (target %d, %s) are the same string %q", a.idx, a.target, a.addr, b.idx, b.target, b.addr, a.code)))
+		}
+	}
+	for _, cd := range r.codes {
+		raw, ok := r.getString(constants.KeyPrefixRuntimeConnectionCodeByCode + cd.code)
+		var rec models.TunnelConnectionCode
+		if !ok || json.Unmarshal([]byte(raw), &rec) != nil {
+			genBroken = true
+			w.Violation("C06:generated-code-not-stored", r.detail(fmt.Sprintf("code%d %q was handed out but no record is stored under it", cd.idx, cd.code)))
+			continue
+		}
+		if rec.TargetClientID != cd.target || rec.TargetAddress != cd.addr {
+			genBroken = true
+			w.Violation("C06:generated-code-bound-to-other-target", r.detail(fmt.Sprintf("code%d %q was generated for client %d / %s but its record names client %d / %s", cd.idx, cd.code, cd.target, cd.addr, rec.TargetClientID, rec.TargetAddress)))
+		}
+	}
+	if r.genMode != "sequential" {
+		for i, a := range r.codes {
+			for _, b := range r.codes[i+1:] {
+				if a.node == b.node && a.genInv < b.genRet && b.genInv < a.genRet {
+					w.Probe("generate.overlap.same-node")
+					w.Nontrivial()
+				}
+			}
+		}
+	}
+	if genBroken {
+		return // the per-code attribution below assumes distinct, correctly bound codes
 	}
 
 	// ---- arm the fault
@@ -568,7 +697,7 @@ func c06Run(w *simrt.World, tier string) {
 
 func (r *c06run) history() string {
 	var sb strings.Builder
-	fmt.Fprintf(&sb, "backend=%s nodes=%d quota=%d stats=%v fault=%s", map[bool]string{false: "memory", true: "redis"}[r.rd != nil], len(r.nodes), r.quota, r.stats, r.fault)
+	fmt.Fprintf(&sb, "backend=%s nodes=%d quota=%d stats=%v generation=%s fault=%s", map[bool]string{false: "memory", true: "redis"}[r.rd != nil], len(r.nodes), r.quota, r.stats, r.genMode, r.fault)
 	if r.fault != "none" {
 		fmt.Fprintf(&sb, "(node n%d, k=%d", r.fNode+1, r.fK)
 		if r.fault == "stall" {
@@ -832,6 +961,27 @@ func (r *c06run) judge(crashFired bool) {
 				}
 				w.Violation(sig, r.detail(fmt.Sprintf("revocation of code%d was acknowledged (stamp %d, no mapping %s in the store then) and mapping %s appeared afterwards (%s)", cd.idx, rv.ret, id, id, on)))
 			}
+		}
+
+		// (5b) an expired code never creates a mapping: no record of this code may have been
+		//      written to the store after the code's deadline and still be there
+		for _, id := range mine {
+			at, seen := r.appeared[id]
+			if !seen || at <= cd.expHi {
+				continue
+			}
+			owner := byAddr[recs[id].ListenAddress]
+			if owner != nil && owner.finished && owner.err != nil {
+				continue // reported under (3)
+			}
+			on, class := "?", "accepted-before-deadline"
+			if owner != nil {
+				on = owner.name + "=" + owner.outcome()
+				if owner.tInv > cd.expHi {
+					class = "invoked-after-deadline"
+				}
+			}
+			w.Violation("C06:mapping-written-after-code-expired:"+class, r.detail(fmt.Sprintf("code%d expired at %v; mapping %s was written to the store at %v and is still there (%s)", cd.idx, cd.expHi, id, at, on)))
 		}
 
 		// (6) after a success the code must be spent
